@@ -210,7 +210,9 @@ func (s *socket) onPacket(data *packet.Packet) {
 
 	switch data.Type {
 	case packet.PING:
-		if s.Transport().Protocol() != 3 {
+		// the heartbeat mode is the session's (see onOpen), whatever revision
+		// an upgrade candidate announced for itself
+		if s.protocol != 3 {
 			s.onError(errors.New("invalid heartbeat direction").Err())
 			return
 		}
@@ -219,7 +221,7 @@ func (s *socket) onPacket(data *packet.Packet) {
 		s.sendPacket(packet.PONG, nil, nil, nil)
 		s.Emit("heartbeat")
 	case packet.PONG:
-		if s.Transport().Protocol() == 3 {
+		if s.protocol == 3 {
 			s.onError(errors.New("invalid heartbeat direction").Err())
 			return
 		}
